@@ -18,7 +18,7 @@ the rest).
 -/
 namespace Blf.WPipe
 open Blf.Queue (CV)
-open Blf.Pipe (Mon Status wake UP wake_asleep wake_eq_done wake_ne_done guard_read_false_iff guard_write_false_iff
+open Blf.Pipe (UMeth uNotifies Mon Status wake UP wake_asleep wake_eq_done wake_ne_done guard_read_false_iff guard_write_false_iff
   uguardRead_false_iff uguardWrite_false_iff)
 
 def total (sz : Nat → Nat) (l : List Nat) : Nat := (l.map sz).sum
@@ -56,27 +56,27 @@ inductive Step (sz : Nat → Nat) : Sys → Sys → Prop
   | eNull (s : Sys) (h1 : s.enc = .running) (h0 : s.pending = none)
       (hg : Queue.guard s.q .read = true) (hq : s.q.queue = []) :
       Step sz s { s with q := (Queue.step s.q .read).1, u := { s.u with fileSize := s.u.tellp }, enc := .done,
-                         app := wake .q (Queue.notifies .read) s.app, comp := wake .u [.tellp] s.comp }
+                         app := wake .q (Queue.notifies .read) s.app, comp := wake .u (uNotifies .setFileSize) s.comp }
   | eBlockQ (s : Sys) (h1 : s.enc = .running) (h0 : s.pending = none) (hg : Queue.guard s.q .read = false) :
       Step sz s { s with enc := .asleep .q .tellp }
   | eWrite (s : Sys) (x : Nat) (h1 : s.enc = .running) (h0 : s.pending = some x) (hg : s.u.guardWrite = true) :
       Step sz s { s with u := { s.u with tellp := s.u.tellp + sz x }, pending := none, wr := s.wr ++ [x],
-                         comp := wake .u [.tellp] s.comp }
+                         comp := wake .u (uNotifies .writeBytes) s.comp }
   | eBlockU (s : Sys) (x : Nat) (h1 : s.enc = .running) (h0 : s.pending = some x) (hg : s.u.guardWrite = false) :
       Step sz s { s with enc := .asleep .u .tellg }
   -- compressor ---------------------------------------------------------------------------------
   | cFull (s : Sys) (h1 : s.comp = .running) (hg : s.u.guardRead s.cs = true)
       (hs : (s.cs : Int) + s.u.tellg ≤ s.u.fileSize) :
       Step sz s { s with u := { s.u with tellg := s.u.tellg + s.cs, demand := 0 }, outs := s.outs ++ [s.cs],
-                         enc := wake .u [.tellg] s.enc }
+                         enc := wake .u (uNotifies .read) s.enc }
   | cShort (s : Sys) (h1 : s.comp = .running) (hg : s.u.guardRead s.cs = true)
       (hs : (s.cs : Int) + s.u.tellg > s.u.fileSize) :
       Step sz s { s with u := { s.u with tellg := s.u.fileSize, demand := 0 },
                          outs := s.outs ++ [(s.u.fileSize - s.u.tellg).toNat], comp := .done,
-                         enc := wake .u [.tellg] s.enc }
+                         enc := wake .u (uNotifies .read) s.enc }
   | cBlock (s : Sys) (h1 : s.comp = .running) (hg : s.u.guardRead s.cs = false) :
       Step sz s { s with u := { s.u with demand := (s.cs : Int) + s.u.tellg }, comp := .asleep .u .tellp,
-                         enc := wake .u [.tellg] s.enc }
+                         enc := wake .u (uNotifies .read) s.enc }
 
 def init (bufU : Int) (capQ : Nat) (cs : Nat) (objs : List Nat) : Sys :=
   { q := { bufferSize := capQ }, u := { bufferSize := bufU }, cs := cs, toWrite := objs, app := .running,
@@ -468,15 +468,15 @@ theorem measure_step (sz : Nat → Nat) (objs : List Nat) (s t : Sys) (hi : Inv 
     simp only [measure, Queue.step, hq, List.length_cons, h0]; simp; omega
   | eNull h1 h0 hg hq =>
     have := wApp_wake .q (Queue.notifies .read) s.app
-    have := wComp_wake .u [.tellp] s.comp
+    have := wComp_wake .u (uNotifies .setFileSize) s.comp
     simp only [measure, Queue.step, hq, h1, wEnc]; omega
   | eBlockQ h1 h0 hg => simp only [measure, h1, wEnc]; omega
   | eWrite x h1 h0 hg =>
-    have := wComp_wake .u [.tellp] s.comp
+    have := wComp_wake .u (uNotifies .writeBytes) s.comp
     simp only [measure, h0]; simp; omega
   | eBlockU x h1 h0 hg => simp only [measure, h1, wEnc]; omega
   | cFull h1 hg hs =>
-    have := wEnc_wake .u [.tellg] s.enc
+    have := wEnc_wake .u (uNotifies .read) s.enc
     have hle : (s.cs : Int) + s.u.tellg ≤ s.u.tellp := by
       have ha := hi.noAbort.1
       simp [UP.guardRead, ha] at hg
@@ -487,7 +487,7 @@ theorem measure_step (sz : Nat → Nat) (objs : List Nat) (s t : Sys) (hi : Inv 
     have hcs := hi.cspos
     simp only [measure]; omega
   | cShort h1 hg hs =>
-    have := wEnc_wake .u [.tellg] s.enc
+    have := wEnc_wake .u (uNotifies .read) s.enc
     have h3 := hi.tp
     have h4 := hi.gle
     have h6 := total_le_of_hist sz s.wr (pend s.pending) s.q.queue s.toWrite
@@ -499,7 +499,7 @@ theorem measure_step (sz : Nat → Nat) (objs : List Nat) (s t : Sys) (hi : Inv 
       · have := hi.encLive he; omega
     simp only [measure, h1, wComp]; omega
   | cBlock h1 hg =>
-    have := wEnc_wake .u [.tellg] s.enc
+    have := wEnc_wake .u (uNotifies .read) s.enc
     simp only [measure, h1, wComp]; omega
 
 /-! ### the result -/
